@@ -133,9 +133,7 @@ theorem WInv_evInbound {w : World} (h : WInv w) {p : World × Option Err} (hp : 
     WInv p.1 := by
   unfold evInbound at hp
   split at hp
-  · split at hp
-    · cases hp; exact WInv_addConn h none none (Or.inl rfl)
-    · cases hp
+  · cases hp; exact WInv_addConn h none none (Or.inl rfl)
   · cases hp
 
 theorem WInv_evConnected {w : World} (h : WInv w) {k : Nat} {p : World × Option Err}
@@ -202,9 +200,7 @@ theorem addConn_cfg (w : World) (rh : Option Bytes) (ow : Option Nat) : (addConn
 theorem evInbound_cfg {w : World} {p : World × Option Err} (hE : evInbound w = some p) : p.1.cfg = w.cfg := by
   unfold evInbound at hE
   split at hE
-  · split at hE
-    · cases hE; exact addConn_cfg _ _ _
-    · cases hE
+  · cases hE; exact addConn_cfg _ _ _
   · cases hE
 
 theorem evConnected_cfg {w : World} {k : Nat} {p : World × Option Err} (hE : evConnected w k = some p) :
